@@ -1,4 +1,5 @@
 import UrcuVerif.Src.QueueRefine
+import UrcuVerif.Src.QueueDeq
 /-!
 # `_cds_lfq_dequeue_rcu` ⊑ thread-local projection of `Lfq/Model.lean`  (continuation of `Src/QueueRefine.lean`, `LfqR`)
 
@@ -134,5 +135,227 @@ theorem enq_loop' (c : Cfg) (fuel : Nat) (nl : Loc) (n : Nat) (mbv : Int) (hn : 
             Except.bind, h1, h2, hcfg, Env.setVar, setDst, Val.truthy] at hok
           by_cases hmb : mbv = 0 <;> simp [hmb] at hok
         · exact hnp ⟨l, rfl⟩
+
+/-! ## the stateful abstraction of a dequeue run -/
+
+/-- dummy nodes are the `&obj->parent` locations -/
+def isPar : Loc → Bool
+  | .field _ f => f == "parent"
+  | _ => false
+
+inductive DSt
+  | none                 -- nothing pending
+  | pend (a : Nat)       -- `head->next == NULL` was loaded on the non-dummy head `a`: the label waits for `malloc`'s result
+  | after                -- the dummy was allocated: the next load of `head->next` is L2's `ldNext2`
+  deriving DecidableEq
+
+def absDeq : DSt → List Event → List LLabel
+  | _, [] => []
+  | st, e :: es =>
+    match e with
+    | .ld l v _ =>
+      if l = .field L.q "tail" ∨ l = .field L.q "head" then (absEv L e).toList ++ absDeq st es
+      else match l with
+        | .field l' f =>
+          if f = "next" then
+            match L.addr l', dec L v with
+            | some a, some x =>
+              if x = 0 ∧ isPar l' = false ∧ st = .none then absDeq (.pend a) es
+              else .ldNext a x (isPar l') 0 :: absDeq .none es
+            | _, _ => .other :: absDeq st es
+          else .other :: absDeq st es
+        | _ => .other :: absDeq st es
+    | .ext name _ r =>
+      if name = "malloc" then
+        match st, r with
+        | .pend a, .ptr dl =>
+          match L.addr (.field dl "parent") with
+          | some d => .ldNext a 0 false d :: absDeq .after es
+          | none => .other :: absDeq st es
+        | _, _ => .other :: absDeq st es
+      else absDeq st es      -- `(*queue_call_rcu)(…)`: L2 folds it into `casHead` of a dummy
+    | .cas l e' n old _ _ =>
+      if l = .field L.q "head" then
+        match e', dec L e', dec L n, dec L old with
+        | .ptr el, some ex, some nx, some ox => .casHead ex nx ox (isPar el) :: absDeq st es
+        | _, _, _, _ => .other :: absDeq st es
+      else (absEv L e).toList ++ absDeq st es
+    | _ => (absEv L e).toList ++ absDeq st es
+
+theorem absDeq_enq (st : DSt) (evs rest : List Event) (h : ∀ e ∈ evs, EnqEv L e) :
+    absDeq L st (evs ++ rest) = evs.filterMap (absEv L) ++ absDeq L st rest := by
+  induction evs with
+  | nil => rfl
+  | cons e es ih =>
+    have ih' := ih (fun e' he' => h e' (by simp [he']))
+    rcases h e (by simp) with ⟨v, mo, rfl⟩ | ⟨p, rfl⟩ | ⟨l, a, b, c', m1, m2, rfl, hl⟩
+    · simp only [List.cons_append, absDeq, true_or, if_true, ih', List.filterMap_cons]
+      cases absEv L (.ld (.field L.q "tail") v mo) <;> simp
+    · simp only [List.cons_append, absDeq, ih', List.filterMap_cons]
+      cases absEv L (.fence p) <;> simp
+    · simp only [List.cons_append, absDeq, hl, if_false, ih', List.filterMap_cons]
+      cases absEv L (.cas l a b c' m1 m2) <;> simp
+
+theorem dec_inj {v w : Val} {a : Nat} (hv : dec L v = some a) (hw : dec L w = some a) : v = w := by
+  cases v <;> cases w <;> simp [dec] at hv hw
+  · simp [hv.1, hw.1]
+  · exact absurd (hv.2 ▸ hw) (L.addr_ne0 _)
+  · exact absurd (hw.2 ▸ hv) (L.addr_ne0 _)
+  · rename_i l l'; rw [L.addr_inj l l' a hv hw]
+
+/-- the part of the loop body of the generated `_cds_lfq_dequeue_rcu` from `rcu_dereference(q->tail) == head` on -/
+def deqBody : Stmt :=
+  match Gen.Src.«_cds_lfq_dequeue_rcu» with
+  | .loop b => b
+  | _ => .skip
+
+def lfqTail : Stmt := WfcqR.dropSeq 6 deqBody
+
+/-- how the tail of one dequeue iteration (from L2's `dLdT`) ends -/
+def TailPost (c : Cfg) (ls : LState) (hl : Loc) (env : Env) (inp : List Val) (o : Out) : Prop :=
+  ∃ ls', lrun c ls (absDeq L .none o.events) = some ls' ∧ o.env.priv = env.priv ∧ (∀ v ∈ o.inp, v ∈ inp) ∧
+    ((o.ctl = .blocked ∧ (ls'.pc = .dLdT ∨ ls'.pc = .dHelpT ∨ ls'.pc = .dCas ∨ ls'.pc = .dLdH)) ∨
+     (o.ctl = .cont ∧ ls'.pc = .dLdH ∧ o.env.vars "q" = env.vars "q") ∨
+     (o.ctl = .ret (some (.ptr hl)) ∧ ls'.pc = .idle))
+
+set_option hygiene false in
+local macro "tail_exec" : tactic =>
+  `(tactic| simp [lfqTail, WfcqR.dropSeq, deqBody, Gen.Src.«_cds_lfq_dequeue_rcu», Gen.Src.«rcu_free_dummy», block, exec,
+      eval, evalArgs, execPrim, bindParams, asLoc, bind, Except.bind, Env.setVar, Env.setPriv, setDst, Val.truthy,
+      evalBin, evalUn, boolV, *] at hok)
+
+local macro "tail_abs" : tactic =>
+  `(tactic| simp +contextual [TailPost, absDeq, absEv, dec_ptr, dec_int0, lrun, lstep, afterNextPc, *])
+
+theorem lfqTail_run (c : Cfg) (hc : c.helpTail = true) (fuel : Nat) (env : Env) (inp : List Val) (hl : Loc)
+    (a nx : Nat) (nxv fv : Val) (ls : LState) (o : Out)
+    (h1 : env.vars "q" = some (.ptr L.q)) (h2 : env.vars "head" = some (.ptr hl)) (h3 : env.vars "next" = some nxv)
+    (ha : L.addr hl = some a) (hnx : dec L nxv = some nx)
+    (hp1 : env.priv (.field hl "dummy") = some (.int (if isPar hl then 1 else 0)))
+    (hp2 : isPar hl = true → env.priv (.field hl "q") = some (.ptr L.q) ∧
+      env.priv (.field L.q "queue_call_rcu") = some fv)
+    (hwt : ∀ v ∈ inp, Typed L v) (hpc : ls.pc = .dLdT) (hhd : ls.hd = a) (hlnx : ls.nx = nx)
+    (hok : exec fuel lfqTail env inp = .ok o) : TailPost L c ls hl env inp o := by
+  have hdh : dec L (.ptr hl) = some a := ha
+  rcases inp with _ | ⟨t, r⟩
+  · tail_exec
+    subst hok
+    tail_abs
+  · obtain ⟨tx, htx⟩ := hwt t (by simp)
+    by_cases ht : t = .ptr hl
+    · subst ht
+      have hta : tx = a := by simpa [hdh] using htx.symm
+      rcases r with _ | ⟨a', r⟩
+      · tail_exec
+        subst hok
+        tail_abs
+      · obtain ⟨ax, hax⟩ := hwt a' (by simp)
+        rcases r with _ | ⟨o', r⟩
+        · tail_exec
+          subst hok
+          tail_abs
+        · obtain ⟨ox, hox⟩ := hwt o' (by simp)
+          by_cases ho : o' = .ptr hl
+          · subst ho
+            have hoa : ox = a := by simpa [hdh] using hox.symm
+            subst hoa
+            by_cases hd : isPar hl = true
+            · obtain ⟨hq1, hq2⟩ := hp2 hd
+              rcases r with _ | ⟨rv, r⟩
+              · tail_exec
+                subst hok
+                tail_abs
+              · tail_exec
+                subst hok
+                tail_abs
+            · simp only [Bool.not_eq_true] at hd
+              tail_exec
+              subst hok
+              tail_abs
+          · have hoa : ox ≠ a := fun e => ho (dec_inj L (e ▸ hox) hdh)
+            tail_exec
+            subst hok
+            tail_abs
+    · have htx' : tx ≠ a := fun e => ht (dec_inj L (e ▸ htx) hdh)
+      rcases r with _ | ⟨o', r⟩
+      · tail_exec
+        subst hok
+        tail_abs
+      · obtain ⟨ox, hox⟩ := hwt o' (by simp)
+        by_cases ho : o' = .ptr hl
+        · subst ho
+          have hoa : ox = a := by simpa [hdh] using hox.symm
+          by_cases hd : isPar hl = true
+          · obtain ⟨hq1, hq2⟩ := hp2 hd
+            rcases r with _ | ⟨rv, r⟩
+            · tail_exec
+              subst hok
+              tail_abs
+            · tail_exec
+              subst hok
+              tail_abs
+          · simp only [Bool.not_eq_true] at hd
+            tail_exec
+            subst hok
+            tail_abs
+        · have hoa : ox ≠ a := fun e => ho (dec_inj L (e ▸ hox) hdh)
+          tail_exec
+          subst hok
+          tail_abs
+
+/-- what the private view must provide for the plain loads of dequeue: the `dummy` word of every node (1 exactly for
+`&obj->parent` nodes), the `q` word of dummies and the queue's `queue_call_rcu` word (read by `rcu_free_dummy`), the
+build configuration -/
+def Pinv (fv : Val) (mbv : Int) (priv : Loc → Option Val) : Prop :=
+  (∀ l a, L.addr l = some a → priv (.field l "dummy") = some (.int (if isPar l then 1 else 0))) ∧
+  (∀ l a, L.addr l = some a → isPar l = true → priv (.field l "q") = some (.ptr L.q)) ∧
+  priv (.field L.q "queue_call_rcu") = some fv ∧
+  priv (.glob "CONFIG_RCU_EMIT_LEGACY_MB") = some (.int mbv)
+
+/-- one iteration of the dequeue loop, from L2's `dLdH` -/
+def BodyPost (c : Cfg) (fv : Val) (mbv : Int) (ls : LState) (env : Env) (inp : List Val) (o : Out) : Prop :=
+  ∃ ls', lrun c ls (absDeq L .none o.events) = some ls' ∧ Pinv L fv mbv o.env.priv ∧ (∀ v ∈ o.inp, v ∈ inp) ∧
+    ((o.ctl = .blocked ∨ o.ctl = .fuel) ∨
+     (o.ctl = .cont ∧ ls'.pc = .dLdH ∧ o.env.vars "q" = env.vars "q") ∨
+     (o.ctl = .ret (some (.int 0)) ∧ ls'.pc = .idle) ∨
+     (∃ hl, o.ctl = .ret (some (.ptr hl)) ∧ ls'.pc = .idle))
+
+set_option hygiene false in
+local macro "body_exec" : tactic =>
+  `(tactic| simp [block, exec, eval, evalArgs, execPrim, bindParams, asLoc, bind, Except.bind, Env.setVar, Env.setPriv,
+      setDst, Val.truthy, evalBin, evalUn, boolV, *] at hok)
+
+theorem deqBody_run (c : Cfg) (hc : c.helpTail = true) (fuel : Nat) (env : Env) (inp : List Val) (fv : Val) (mbv : Int)
+    (ls : LState) (o : Out) (h1 : env.vars "q" = some (.ptr L.q)) (hP : Pinv L fv mbv env.priv)
+    (hpar : ∀ l a, L.addr l = some a → ∃ d, L.addr (.field l "parent") = some d)
+    (hwt : ∀ v ∈ inp, Typed L v) (hpc : ls.pc = .dLdH)
+    (hok : exec fuel deqBody env inp = .ok o) : BodyPost L c fv mbv ls env inp o := by
+  obtain ⟨hP1, hP2, hP3, hP4⟩ := hP
+  rw [show deqBody = Stmt.seq _ (.seq _ (.seq _ (.seq _ (.seq _ (.seq _ lfqTail))))) from rfl] at hok
+  rcases inp with _ | ⟨hv, r⟩
+  · body_exec
+    subst hok
+    simp [BodyPost, absDeq, lrun, Pinv, hP1, hP2, hP3, hP4]
+    exact ⟨hP1, hP2⟩
+  · rcases typed_cases L (hwt hv (by simp)) with rfl | ⟨hl, a, rfl, ha⟩
+    · body_exec
+    · have hp1 := hP1 hl a ha
+      rcases r with _ | ⟨nv, r⟩
+      · body_exec
+        subst hok
+        simp [BodyPost, absDeq, absEv, dec_ptr, ha, lrun, lstep, hpc, Pinv, hP3, hP4]
+        exact ⟨hP1, hP2⟩
+      · obtain ⟨nx, hnx⟩ := hwt nv (by simp)
+        by_cases hn0 : nv = .int 0
+        · subst hn0
+          by_cases hd : isPar hl = true
+          · body_exec
+            subst hok
+            simp [BodyPost, absDeq, absEv, dec_ptr, dec_int0, ha, lrun, lstep, hpc, Pinv, hP3, hP4, hd]
+            trace_state
+            sorry
+          · sorry
+        · have hnx0 : nx ≠ 0 := fun e => hn0 (dec_eq_zero L (e ▸ hnx))
+          sorry
 
 end UrcuVerif.Src.Queue.LfqR
